@@ -206,6 +206,13 @@ pub fn eval_doc(src: &str, o: u32) -> String {
                     Err(r) => format!("E{r}"),
                 });
             }
+            // far past the end: the remaining distance, whatever the index
+            for i in [1usize << 32, usize::MAX - 1, usize::MAX] {
+                frags.push(match v.get_fragment(i) {
+                    Ok(f) => frag_tag(&f),
+                    Err(r) => format!("E{r}"),
+                });
+            }
             let trav: Vec<String> = v.traverse().map(|(i, f)| format!("{}{}", i, frag_tag(&f))).collect();
             let mut nav = String::new();
             let mut spans_ok = true;
